@@ -6,7 +6,7 @@ def tla_prog(flat):
     out = []
     for e in flat["elems"]:
         out.append({"kind": e["kind"], "parent": e["parent"], "tags": e["tags"], "children": e["children"],
-                    "steps": [{"o": s["o"], "def": s["def"], "org": s["org"], "k": s["k"], "cl_id": s["cl_id"],
+                    "steps": [{"o": s["o"], "o2": s["o2"], "def": s["def"], "org": s["org"], "k": s["k"], "cl_id": s["cl_id"],
                                "cl_layer": s["cl_layer"], "cl_raises": s["cl_raises"]} for s in e["steps"]],
                     "has_bg": e["has_bg"]})
     return out
@@ -15,7 +15,7 @@ def tla_prog(flat):
 def tla_cfg(c):
     ex = G.EXPRS[c["expr"]]
     return {"stop": c["stop"], "dry": c["dry"], "show_skipped": c["show_skipped"], "cont": c["cont"],
-            "cap_out": c["cap_out"], "cap_err": c["cap_err"], "cap_log": c["cap_log"], "expr": c["expr"],
+            "cap_out": c["cap_out"], "cap_err": c["cap_err"], "cap_log": c["cap_log"], "expr": c["expr"], "retry": bool(c.get("retry", False)),
             "nodes": [{"op": n[0], "a": n[1], "b": n[2], "name": n[3]} for n in ex["nodes"]], "root": ex["root"]}
 
 
